@@ -21,10 +21,9 @@ ASSUMPTIONS = [
     "FusedIO, Chunk/Aggregate…) are separated from other classes by their token only",
 ]
 PARTIAL = [
-    "C08_injective covers classes with a constant, non-exempt prefix whose token covers all operands; the exempt prefix group "
-    "'operation' is an open collision (finding S1 of the C08 search), the groups add_prefix/add_suffix/getitem/loc are kept apart by operand kinds the table does not see",
-    "task keys of DiskShuffle are drawn from uuid1 (D11) and the order of `Fused.exprs` depends on PYTHONHASHSEED: both are "
-    "outside the model (names are a function of the tree; the tree the optimizer builds is not a function of the query alone)",
+    "C08_injective covers classes with a constant, non-exempt prefix whose token covers all operands; the prefix groups "
+    "add_prefix/add_suffix/getitem/loc are kept apart by operand kinds the table does not see (documented exemptions)",
+    "task keys of DiskShuffle are drawn from uuid1 (open finding D11): outside the model (names are a function of the tree)",
 ]
 EXPLANATION = (
     "Theorems: names are injective on all admissible trees (structural induction) under A1/A2 and rule completeness; the name is a "
@@ -436,8 +435,9 @@ def support(ctx, broken):
     qids = list(sp.POOL)
     # (a) determinism across processes / hash seeds / histories
     items = [(q, None) for q in qids]
-    items += [(q, i) for q in qids for i in range(len(sp.POOL[q][2])) if (not ctx.quick) or i == 0]
-    seeds = ("0", "1", "12345") if ctx.quick else ("0", "1", "2", "12345", "4294967295")
+    if not ctx.quick:
+        items += [(q, i) for q in qids for i in range(len(sp.POOL[q][2]))]
+    seeds = ("1", "12345") if ctx.quick else ("0", "1", "2", "12345", "4294967295")
     fails, n = check_determinism(items, pq, seeds=seeds)
     sup.executed += n
     sup.distribution["determinism:query x world"] = n
